@@ -39,9 +39,12 @@ FAULTS = {
                              'addi x8, x8, \x000\x00', 'dw \x005\x00', "li x8, '#' + \x001\x00\nalign 4", 'dw \x00', 'addi x8, x8, 1\x002',
                              # unbalanced parentheses / a modifier where a plain reference is expected
                              'lw x8, 4(x9', 'lw x8, 4(x9))', 'sw x8, 0(x9', 'sw x8, 0(x9))', 'jalr x0, 0(x1', 'c.lw x8, 0(x9\nc.nop', 'c.sw x8, 4(x9))\nc.nop',
+                             'li x8, %hi\nalign 4', 'li x8, %lo(\nalign 4', 'li x8, %offset\nalign 4', 'li x8, %position(L0\nalign 4',
+                             # the faulty line (or its comment) contains characters that are special to str.format / % formatting
+                             'addi x8, x8, 4096  # see {errata 12}', 'addi x8, x8, {5}', 'dw UNDEF_{0}', 'addi x8, x8, 4096 # 100%s sure %d', "dw '{' + 1",
                              'j %offset(L0)', 'beqz x8, %offset(L0)', 'bgtu x5, x6, %offset(L0)', 'call %offset(L0)\nalign 4'],
     'non-integer': ['addi x8, x8, 1.5', 'dw 2 / 1', 'ZZ = 1.5', 'addi x8, x8, "a"', 'dw 1e3', 'dw None', 'dw ()', 'dw [1]', 'dw "a" * 2', 'addi x8, x8, 1 < 2', 'dw 2 ** -1', 'dw lambda: 1', 'dw (1 << 20000,)', 'addi x8, x8, (10 ** 4400, 1)'],
-    'error-directive': ['error boom', '  error this board is not supported # really', 'error see docs\\usage.txt', 'error C:\\new\\x', 'error trailing backslash \\',
+    'error-directive': ['error boom', '  error this board is not supported # really', 'error see docs\\usage.txt', 'error C:\\new\\x', 'error trailing backslash \\', 'error unsupported chip {CHIP}', 'error 100%d sure {0}',
                         # the parser takes the keyword in any case and after any whitespace
                         'ERROR board not supported', 'Error two words', 'error\tboard not supported', '  ERROR\tindented and tabbed', 'error  two spaces'],
     # a string whose escape sequence is truncated / names no character / yields a lone surrogate: the text cannot be encoded, the line must be reported
@@ -107,6 +110,11 @@ def fault_case(ctx, case):
         ln = getattr(e, 'line', None)
         got = ('AssemblerError', getattr(ln, 'file', None), getattr(ln, 'number', None))
         msg = getattr(e, 'message', '')
+        try:
+            str(e)          # the error must be printable (that is how the command line reports it)
+        except BaseException as e2:
+            got = ('unprintable-AssemblerError(%s)' % type(e2).__name__, None, None)
+            msg = kernel.errline(e2)
     except BaseException as e:
         got = (type(e).__name__, None, None)
         msg = kernel.errline(e)
